@@ -81,7 +81,7 @@ def addr2line(exe, addrs):
 def site_of(exe, frames, depth=1):
     """name of the allocation site for a list of return addresses (innermost first).
     depth > 1 appends the callers (used by C17 to tell apart the users of a common helper)."""
-    res = addr2line(exe, [f for f in frames if f.startswith("0x")])
+    res = addr2line(exe, [f for f in frames if re.fullmatch(r"0x[0-9a-f]+", f)])
     names = []
     for fn, path, line in res:
         if fn in WRAPPERS or fn == "??" or not path or path.startswith("??"):
